@@ -30,4 +30,45 @@ CHECKS = {
         technique="TLA+ state machine model-checked by TLC; terminal states replayed into the code; TLC trace "
                   "validation of recorded observations",
         ref="DESIGN.md §4 C10"),
+    "C03": dict(
+        category="model_checking",
+        text="SymVM.tla specifies VM::execute as a scheduler of threads with one action per critical section "
+             "(Operand, Fork, StoreErr, Exec, Advance, Finish) and states the bounds as invariants over the code bytes "
+             "and limits: Inv_C03_Visits (<= L executions per instruction per thread, inherited on fork), Inv_C03_Forks, "
+             "Inv_C03_Threads (<= 1 + F x |JUMPDEST|), Inv_C03_Gas (no step beyond the gas limit; gas accumulated and "
+             "inherited), Inv_C03_Halts, plus the termination variant. TLC checks them on the mirror model for every "
+             "program of <= 4/5 tokens x small limits, replays every terminal state on the real VM, and validates "
+             "recorded executions of generated programs (loops, nested loops, self-jumps, jump tables, stack-growing "
+             "loops, fork bombs, read-mask-write loops) under L 1..12, F 1..60, G 150..30M event by event.",
+        note="The type-checker half (lifting/inference/unification halting) is exercised by the pipeline-level runs of "
+             "C01/C14 under a poll budget; here the VM half is decided. Trusted: TLC, the hooks (cross-checked against "
+             "the public-API observation of stored states).",
+        technique="TLA+ scheduler model; TLC model checking of the mirror; replay of TLC behaviours on the VM; TLC trace "
+                  "validation of hook-recorded executions",
+        ref="DESIGN.md §4 C03"),
+    "C08": dict(
+        category="model_checking",
+        text="Same specification as C03: Inv_C08_Edge (the pointer moves only by fall-through or by a JUMP/JUMPI whose "
+             "full 256-bit operand is the offset of a JUMPDEST at an instruction boundary per Disasm), Inv_C08_Halt "
+             "(nothing executes after STOP/RETURN/REVERT/SELFDESTRUCT/INVALID/unassigned bytes, errors, unresolved "
+             "jumps), Inv_C08_Both (a JUMPI with a valid target forks unless a limit forbids it, a JUMPI with a bad "
+             "target still falls through, a path is only abandoned for a reason the limits give). Checked on the mirror "
+             "for all small programs, replayed (executed-offset sets must agree), and on recorded executions of "
+             "programs with 11 kinds of legal/illegal constant and computed targets and dead code behind halts.",
+        note="The operand value is the constant the instruction found (JumpOperand hook); its correctness as a "
+             "denotation is C07/C09's business.",
+        technique="TLA+ scheduler model; TLC model checking; replay; TLC trace validation",
+        ref="DESIGN.md §4 C08"),
+    "C17": dict(
+        category="model_checking",
+        text="Same specification: Inv_C17_Demand (stack under/overflow computed from the spec's own depth tracking, bad "
+             "constant jump targets and gas exhaustion must raise), Inv_C17_Policy (strict records every raised error; "
+             "permissive never records a bad jump target - JUMP or JUMPI - and still records everything else), "
+             "Inv_C17_Located, Inv_C17_Finish (execute() fails iff something was recorded and lists exactly that; "
+             "strict Ok implies permissive Ok with the same layout, two-run record). Bad jumps are classified by the "
+             "specification from the code bytes and operand, not by the tool's error variant.",
+        note="Both modes x every error source are enumerated by the mirror for small programs and sampled by generated "
+             "programs (9 error families incl. overflow through each pushing opcode class).",
+        technique="TLA+ scheduler model; TLC model checking; replay; TLC trace validation",
+        ref="DESIGN.md §4 C17"),
 }
